@@ -490,3 +490,63 @@ def _gen_post(ex, F, env, out, snap):
 
 
 kmethod("SigningKey", "generate", [("entropy", _gen_setup)], _gen_post, None, props=("C17",))
+
+
+# ---- deterministic signing (C04): the retry loop around RFC 6979 ---------------------------------------------------------
+def _sdd_setup(trunc, canon):
+    def setup(ex, F):
+        W = mk_key_world(ex, F)
+        digest = ex.fresh_bytes("digest")
+        ex.assume(blen(digest) >= 1)
+        from contracts.rfc6979 import mk_hashfunc as mkh
+        ex.gk_calls = []
+        return {"self": W["sk"], "digest": digest, "hashfunc": mkh(ex), "sigencode": mk_sigencode(canon), "extra_entropy": ex.fresh_bytes("extra"),
+                "allow_truncate": trunc}
+    return setup
+
+
+def _sdd_post(ex, F, env, out, snap):
+    W = F.world
+    if out[0] == "exc":
+        yield "only-BadDigestError-escapes", out[1].endswith("BadDigestError") and env["allow_truncate"] is False, "raised %s at line %s" % (out[1], out[2])
+        return
+    sig = out[1]
+    calls = getattr(ex, "gk_calls", [])
+    ok = isinstance(sig, Encoded) and len(calls) >= 1
+    yield "result-is-sigencode-output", ok, "returned %r after %d generate_k calls" % (sig, len(calls))
+    if not ok:
+        return
+    last = calls[-1]
+    yield "nonce-is-generate_k-of-key-digest-extra", last["secexp"] is W["d"] and last["data"] is env["digest"] and last["extra_entropy"] is env["extra_entropy"] \
+        and last["hash_func"] is env["hashfunc"], "generate_k called with other arguments"
+    k = last["_k"]
+    e = F.opaque(ex, trunc_spec(env["digest"], W["kcurve"], env["allow_truncate"]), "e")
+    rx, s_spec = spec_rs(ex, F, k, e, W["d"])
+    if sig.canon and F.status(sig.s.res + s_spec) == "zero":
+        s_spec = -s_spec
+    yield "standard-signature-for-the-RFC6979-nonce", F.equal(sig.r.res, rx.res) and F.equal(sig.s.res, s_spec), "r = %s, s = %s" % (sig.r.res, sig.s.res)
+    yield "frame", *frame_ok(env, snap, set())
+
+
+def _sdd_apply(ex, F, vals, line):
+    # some RFC 6979 candidate k in [1, n-1] whose (r, s) are non-zero
+    sk = vals["self"]
+    from contracts.rfc6979 import _gk_field_apply
+    k = _gk_field_apply(ex, F, dict(order=F.p, secexp=sk.fields["privkey"].fields["secret_multiplier"], hash_func=vals.get("hashfunc"), data=vals["digest"],
+                                    retry_gen=ex.fresh_int("retries"), extra_entropy=vals.get("extra_entropy", b"")), line)
+    try:
+        return _sd_apply(ex, F, dict(self=sk, digest=vals["digest"], k=k, sigencode=vals.get("sigencode"), allow_truncate=vals.get("allow_truncate", False)), line)
+    except PyRaise as x:
+        if x.cls.endswith("RSZeroError"):
+            raise PathEnd()          # that candidate is skipped by the retry loop
+        raise
+
+
+_sddc = kmethod("SigningKey", "sign_digest_deterministic", [("truncate=%s,%s" % (t, "low-s" if cn else "plain"), _sdd_setup(t, cn)) for t in (True, False) for cn in (False, True)],
+                _sdd_post, _sdd_apply, props=("C04", "C01"))
+# retry loop: ghost iteration counter equals retry_gen (one more candidate skipped per RSZeroError)
+_sddc.loop(0, invariant=[lambda retry_gen, gcount: And_(retry_gen >= 0, eq(retry_gen, gcount))], ghost={"gcount": (lambda: 0, lambda gcount: gcount + 1)})
+
+
+for _q in ['ecdsa.keys._truncate_and_convert_digest']:
+    _R[_q].theories = {"shift"}
